@@ -13,7 +13,7 @@ from .. import harness, rt, zoo
 from ..harness import run_op
 
 LEVEL = "exploration"
-RUNS = {"quick": 4000, "thorough": 60000}
+RUNS = {"quick": 12000, "thorough": 250000}
 WALL = {"quick": 150, "thorough": 1500}
 RULE = (
     "one run = one seeded parser (3-8 argument kinds out of 27, both exit_on_error modes) + world (config files in every storage "
